@@ -10,4 +10,4 @@ Extraction "attsrvc04.ml" conv_anchor
   AttDbModel.find_notification_data_by_index AttDbModel.find_notification_data AttDbModel.all_chars
   AttDbModel.invalid_index
   AttSrvModel.srv_init AttSrvModel.srv_step AttSrvModel.by_value_available
-  AttDbSpec.check_dump AttDbSpec.check_read AttDbSpec.assign.
+  AttDbSpec.check_dump AttDbSpec.check_read AttDbSpec.check_discovery AttDbSpec.assign.
